@@ -40,6 +40,10 @@ def text_of(d):
         attrs.append("align(%d)" % align)
     if packed:
         attrs.append("packed")
+    # the order of the attributes carries no meaning: it is varied deterministically over the grid
+    if len(attrs) > 1:
+        k = (len(fields) + (size or 0) + (align or 0) + ptr // 4 + sum((a or 0) for _, a in fields)) % 6
+        attrs = list(itertools.permutations(attrs))[k % (2 if len(attrs) == 2 else 6)]
     out = ("#[%s]\n" % ", ".join(attrs)) if attrs else ""
     body = []
     for i, (t, addr) in enumerate(fields):
